@@ -100,3 +100,11 @@ Definition run_pipeline (fmt : Z) (ws : list Z) : list Z :=
   | None => [-1]
   | Some rows => run_parse rows
   end.
+
+(* one term per dataset: the three conversions, then the three convert-load-parse pipelines *)
+Definition run_c18 (ws : list Z) : list Z :=
+  run_convert 0 ws ++ run_convert 1 ws ++ run_convert 2 ws
+  ++ run_pipeline 0 ws ++ run_pipeline 1 ws ++ run_pipeline 2 ws.
+
+Definition run_c18_split (perm : list Z) (h : Z) (X : list (list Z)) (Y : list Z) : list Z :=
+  run_split perm h X Y ++ run_split_merge perm h X Y.
